@@ -240,7 +240,21 @@ def gen_params(rng, *, allow_po=True, allow_va=True, allow_vk=True,
     params.append([f'k{i}', 'ko', d])
   if vk:
     params.append(['kw', 'vk', None])
+  if rng.random() < 0.25:
+    # parameter names that internal helpers of a library like to use for their
+    # own parameters (a keyword forwarded through such a helper collides)
+    pool = list(TRICKY_NAMES)
+    rng.shuffle(pool)
+    for p in params:
+      if p[1] in ('pk', 'ko') and rng.random() < 0.6:
+        p[0] = pool.pop()
   return params
+
+
+TRICKY_NAMES = ['fn', 'value', 'name', 'buildable', 'fn_or_cls',
+                'state', 'path', 'key', 'lazy_message', 'arguments', 'metadata',
+                'values', 'tags', 'config', 'memo', 'func', 'message', 'item',
+                'index', 'default', 'tag', 'root', 'cfg', 'other', 'result']
 
 
 def gen_spec(rng, name, kinds=KINDS):
